@@ -15,7 +15,12 @@
 using namespace vh;
 
 static void notice(const char*, ...) {}
-static void errorh(const char*, ...) {}
+static std::string lastError;
+static void errorh(const char* fmt, ...) { char b[512]; va_list ap; va_start(ap, fmt); vsnprintf(b, sizeof b, fmt, ap); va_end(ap); lastError = b; }
+// The envelope computation of circular arcs (run by the CircularString / CurvePolygon constructors) throws for some
+// non-finite ordinates ("CGAlgorithmsDD::orientationIndex encountered NaN/Inf numbers").  That rule is not part of
+// the reader model; such cases are skipped (and counted) instead of being compared.
+static bool nonFiniteArcFailure() { return lastError.find("encountered NaN/Inf") != std::string::npos; }
 
 static GEOSContextHandle_t H;
 static GeometryFactory::Ptr GF;
@@ -44,6 +49,7 @@ static std::string geosWrite(const WCfg& c, const Geometry* g) {
 
 static std::string geosRead(const std::string& wkt) {
     GEOSWKTReader* rd = GEOSWKTReader_create_r(H);
+    lastError.clear();
     GEOSGeometry* g = GEOSWKTReader_read_r(H, rd, wkt.c_str());
     GEOSWKTReader_destroy_r(H, rd);
     if (!g) return "ERR";
@@ -194,6 +200,7 @@ static void streamRt(Rng& r, long n, Out& out) {
         if (!genGeom(r, out, line, g)) continue;
         WCfg c = genCfg(r);
         std::string back = geosRead(geosWrite(c, g.get()));
+        if (back == "ERR" && nonFiniteArcFailure()) { out.count("skipped_nonfinite_arc_envelope"); continue; }
         out.count(back == "ERR" ? "reread_ERR" : "reread_ok");
         out.count(c.old3d ? "old3d" : "iso");
         out.emit(cfgStr(c) + " " + line, back);
@@ -242,6 +249,7 @@ static void emitRead(Out& out, const std::string& wkt, const char* kind) {
     // hexadecimal floats are accepted by strtod but not modelled
     if (wkt.find("0x") != std::string::npos || wkt.find("0X") != std::string::npos) return;
     std::string e = geosRead(wkt);
+    if (e == "ERR" && nonFiniteArcFailure()) { out.count("skipped_nonfinite_arc_envelope"); return; }
     out.count(std::string("read_") + kind); out.count(e == "ERR" ? "read_ERR" : "read_ok");
     out.emit(wkt, e);
 }
